@@ -1,9 +1,9 @@
 package main
 
 import (
-	"strings"
 	"fmt"
 	"go/token"
+	"strings"
 
 	"golang.org/x/tools/go/ssa"
 )
@@ -94,7 +94,7 @@ func init() {
 			}
 			for _, fname := range []string{"reassemblyQueue.forwardTSNForOrdered", "reassemblyQueue.forwardTSNForUnordered", "reassemblyQueue.forwardTSNForOrderedMID", "reassemblyQueue.forwardTSNForUnorderedMID"} {
 				fn := c.Fn(fname)
-				calls := callsIn(fn, sub)
+				calls := callsInDeep(fn, sub, 1)
 				okArg := len(calls) == 1
 				for _, sc := range calls {
 					if !lenOfUserData(callArg(sc, 1)) || len(loopBlocks(sc.Block())) == 0 {
